@@ -8,8 +8,8 @@ PROP = "C20"
 
 def run(tier, only=None):
     rep = Report(PROP, tier, "CrossHair symbolic execution of normalize(text) on a symbolic string; z3 decides each path")
-    t = 400 if tier == "quick" else 1800
-    ladder = [4, 3] if tier == "quick" else [6, 5, 4]
+    t = 400 if tier == "quick" else 1500
+    ladder = [4, 3] if tier == "quick" else [5, 4]
     conds = [Cond("harness.h_c20", "h_text", t, ladder=ladder)]
     for a in ((1, 9, 12, 13) if tier == "quick" else (1, 9, 11, 12, 13)):
         conds.append(Cond("harness.h_c20", "h_text", t, ladder=([2] if tier == "quick" else [3, 2]), affix=a, label="h_text[embedded in concrete text %d]" % a))
